@@ -62,7 +62,9 @@ PROPS = {
         explanation="sanitize.Path / pathPart / PathOr executed symbolically on attacker-controlled names whose every byte is an SMT variable (lengths 0..N, so every UTF-8 class, control characters, separators, drive prefixes, dots and DOS device names up to the bound): the result is rejected or one safe relative path component",
         outside="names longer than N bytes (reserved device names of 4 characters such as COM1 need N >= 4: thorough tier); the call sites that join the sanitised name to the output directory and the collision check between two attachments",
         harnesses=[dict(name="VerifSanitizedPath", bounds=dict(quick=dict(N=2), thorough=dict(N=2)), opts=dict(unwind=100)),
-                   dict(name="VerifSanitizedPathDeep", bounds=dict(quick=dict(K=13), thorough=dict(K=18)), opts=dict(unwind=600))],
+                   dict(name="VerifSanitizedPathDeep", bounds=dict(quick=dict(K=13), thorough=dict(K=18)), opts=dict(unwind=600)),
+                   # collisions between output names after sanitising (shared with C01): never a silent overwrite
+                   dict(name="VerifWriteAttachments", pkg=API, bounds=dict(quick=dict(CALLS=14), thorough=dict(CALLS=18)), opts=dict(unwind=3000, workers=8))],
     ),
     "C06": dict(
         pkg=FO,
@@ -175,7 +177,8 @@ PROPS = {
         explanation="processRow (PNG filters None/Sub/Up/Average/Paeth and TIFF predictor 2) is checked as an inductive step from an ARBITRARY reconstructed prior row against RFC 2083 section 6 / TIFF 6.0 section 14 references written in the harness, for every predictor, colours, bits per component and columns up to the bound, with all 256 filter-type bytes; the row loop of decodePostProcess is checked separately on R rows",
         outside="columns/colours beyond the bounds; the zlib/LZW decompressors feeding the rows",
         harnesses=[
-            dict(name="VerifPredictorRow", bounds=dict(quick=dict(C=2, COLORS=2), thorough=dict(C=3, COLORS=2)), opts=dict(unwind=300, timeout_ms=60000)),
+            dict(name="VerifPredictorRow", bounds=dict(quick=dict(C=2, COLORS=3), thorough=dict(C=2, COLORS=3)), opts=dict(unwind=300, timeout_ms=60000)),
+            dict(name="VerifPredictorRow", bounds=dict(quick=dict(C=3, COLORS=2), thorough=dict(C=3, COLORS=2)), opts=dict(unwind=300, timeout_ms=60000), thorough_only=True),
             dict(name="VerifPredictorDriver", bounds=dict(quick=dict(C=2, COLORS=2, R=2), thorough=dict(C=3, COLORS=3, R=3)), opts=dict(unwind=300)),
             dict(name="VerifPredictorLZW"),
         ],
@@ -256,6 +259,7 @@ PROPS = {
             dict(name="VerifSignedDataCoverage", bounds=dict(quick=dict(N=4, H=1), thorough=dict(N=6, H=2)), opts=dict(unwind=600)),
             dict(name="VerifByteRangeArithmetic"),
             dict(name="VerifRevisionBoundary", pkg=PD, opts=dict(unwind=100)),
+            dict(name="VerifSignatureRevisionGate", pkg=PD, opts=dict(unwind=300)),
         ],
     ),
     "C30": dict(
